@@ -274,7 +274,17 @@ class MCNP_Problem:
                     obj_parser, obj_container = OBJ_MATCHER[input.block_type]
                     if len(input.input_lines) > 0:
                         try:
-                            obj = obj_parser(input)
+                            try:
+                                obj = obj_parser(input)
+                            except (MalformedInputError, UnknownElement):
+                                raise
+                            # any other ValueError raised while an object is built from
+                            # an input is an error of that input
+                            except ValueError as e:
+                                raise MalformedInputError(
+                                    input,
+                                    f"Error parsing object: {type(e).__name__}: {e}",
+                                ) from e
                             obj.link_to_problem(self)
                             obj_container.append(obj)
                             if isinstance(obj, Material):
